@@ -45,7 +45,12 @@ def near(values, lo, hi, dmin=1e-13, dmax=1.0):
 def ellipsoid_spec(invf_lo=150.0, invf_hi=400.0, shipped_weight=2):
     shipped = st.sampled_from(SHIPPED_ELLIPSOIDS)
     custom = st.fixed_dictionaries({"a": floats(6.3e6, 6.4e6), "invf": floats(invf_lo, invf_hi)})
-    return st.one_of(*([shipped] * shipped_weight + [custom]))
+    # an ellipsoid of the caller's own with the very parameters of a shipped one (a distinct object: `ellipsoid is grs80` is false,
+    # every number is equal), parameters given as floats or the way people type them (6378137, 298.25)
+    twins = st.sampled_from([{"a": 6378137.0, "invf": 298.257222101}, {"a": 6378137, "invf": 298.257222101}, {"a": 6378160.0, "invf": 298.25},
+                             {"a": 6378388, "invf": 297}, {"a": 6378137.0, "invf": 298.257223563}])
+    twins = twins.filter(lambda t: invf_lo <= t["invf"] <= invf_hi)
+    return st.one_of(*([shipped] * shipped_weight + [custom, custom, twins]))
 
 
 def make_ellipsoid(spec):
